@@ -19,7 +19,7 @@ RULE = ('seeded generator over input shape (1x1..24x24 quick / ..64 thorough; ev
 ASSUMPTIONS = ['numpy longdouble (80-bit) arithmetic is the reference for the defining sum',
                'phase arguments bounded (|2 pi alpha x u| < 1e4 rad)']
 PLAN = {'quick': {'gen': 8}, 'thorough': {'gen': 16, 'tests': 1, 'docs': 1}}
-REQUIRED_BUCKETS = ['out:view', 'alpha:narrow-float', 'alpha:extreme', 'in:1x1', 'in:even', 'in:odd', 'in:nonsquare', 'alpha:iso', 'alpha:aniso',
+REQUIRED_BUCKETS = ['shift:nearby', 'out:view', 'alpha:narrow-float', 'alpha:extreme', 'in:1x1', 'in:even', 'in:odd', 'in:nonsquare', 'alpha:iso', 'alpha:aniso',
                     'shift0', 'shift+offset', 'unitary:True', 'unitary:False', 'out:given', 'out:none',
                     'inverse:unitary', 'inverse:nonunitary', 'inverse:general', 'cache:evict', 'sweep', 'out:aliased-tall',
                     'refused-then-reused']
@@ -315,6 +315,19 @@ def workload(ctx, lentil):
                   'cached DFT coordinate vectors differ from arange(n)-floor(n/2)', desc)
     if len(seen_keys) > 32:
         ctx.bucket('cache:evict')
+
+    # consecutive transforms that differ only by a shift of less than a millionth of a sample (finite differences of a centroid):
+    # each is its own defining sum
+    for i in range(ctx.count(8, 50)):
+        m, n = gen.rshape(rng, 2, 12)
+        M, N = gen.rshape(rng, 2, 12)
+        f = rng.normal(size=(m, n)) + 1j * rng.normal(size=(m, n))
+        al = (float(rng.uniform(0.05, 0.3)), float(rng.uniform(0.05, 0.3)))
+        s1 = (float(rng.uniform(-3, 3)), float(rng.uniform(-3, 3)))
+        ctx.case({'nearby-shifts': [m, n, M, N], 'alpha': list(al), 'shift': list(s1)}, ['shift:nearby'])
+        for k in range(3):
+            d = float(10 ** rng.uniform(-9, -6.4)) * k
+            dft2(f, al, shape=(M, N), shift=(s1[0] + d, s1[1] - d), offset=(1, -2))     # probe checks against the sum
 
     # sampling intervals whose product leaves the float64 range although the normalisation sqrt|ar*ac| itself does not
     for i in range(ctx.count(6, 40)):
